@@ -6,6 +6,16 @@ from pathlib import Path
 ROOT = Path(__file__).resolve().parent.parent
 
 CHECKS = {
+    "C11": dict(
+        text="Proof (Lean 4 kernel), for all code-unit strings in all three encodings: gr_count_unicode_characters' model never faults on [begin,end) and equals the Unicode specification's scan (Table 3-7/D91/D90) - exact count without error on well-formed text, error reported on ill-formed text, error pointer inside the buffer, count <= well-formed characters before the first ill-formed sequence; NUL-terminated branch never reads past a NUL; get/put inverse on all scalar values; ill-formed sequences swallow only trailing units (resync); the three encodings of a scalar list read back as the same scalars. Decoder tables, limits and toolong thresholds are REGENERATED from UtfCodec.h/.cpp. Model tied to the code by differential execution under ASan: every UTF-8 string of <=3 bytes (exhaustive, 16.8M), boundary-structured longer strings, UTF-16/32 boundary products, gr_make_seg char-infos.",
+        note="Trusted: Lean kernel + [propext, Classical.choice, Quot.sound]; extractor for Gen.Utf; hand-written Model/Utf.lean tied by finite differential runs; Spec/Utf.lean validated against Python's strict codecs through the predicate on implementation outputs. Whole-segment equality across encodings is reduced to equality of the decoded scalar list.",
+        technique="Lean 4 refinement proof (decoder loops = Unicode spec scan) over a model with regenerated tables; exhaustive/differential ASan correspondence",
+        ref="§6 C11"),
+    "C12": dict(
+        text="Proof (Lean 4 kernel): for every encoding, every nChars and every caller memory that contains a NUL unit, the model of process_utf_data never reads outside that memory (so not beyond the terminator when the buffer ends there) and yields exactly the char-infos of the specification relation Reads: one per character consumed, stopping at the NUL or at nChars; stable under over-estimated nChars. Tied to the code by gr_make_seg on heap buffers ending at the terminator under ASan with nChars up to +4096 / 2^20.",
+        note="Trusted: as C11. The model is of the repaired loop (fix commit for D-1).",
+        technique="Lean 4 refinement proof (readText refines Reads) + ASan exact-buffer correspondence through gr_make_seg",
+        ref="§6 C12"),
     "C20": dict(
         text="Proof (Lean 4 kernel) that the model of gr_str_to_tag on a buffer ending at the NUL never reads outside it and returns the big-endian zero-padded tag for all byte values; that gr_tag_to_str stores exactly cells 0..3; round trip on four-character tags; the padding if-chain REGENERATED from gr_face.cpp/gr_segment.cpp zeroes trailing spaces for every tag, is idempotent, and the two source copies are equal. Model tied to the code by differential execution on exact-size heap buffers under ASan (all strings of length<=2 over 256 byte values, boundary bytes up to length 8, 4-byte and 8-byte output buffers).",
         note="Trusted: Lean kernel + [propext, Classical.choice, Quot.sound]; extractor for Gen.Pads; hand-written Model/Tag.lean tied only by finite differential runs; tag-taking entry points (lang/feature lookups) are covered with C18.",
